@@ -80,6 +80,9 @@ type RedisCfg struct {
 	FragNum         int    `json:"frag_num,omitempty"`
 	FragDen         int    `json:"frag_den,omitempty"`
 	BufCap          int    `json:"buf_cap,omitempty"`
+	// BackupHosts: this many extra members of type backup in the host list (standby addresses where nothing
+	// listens); while a main member is usable the service must not use them for anything
+	BackupHosts int `json:"backup_hosts,omitempty"`
 }
 
 const ProxyAddr = "127.0.0.1:6379"
@@ -179,6 +182,9 @@ func (e *RedisEnv) Hosts() []*host.Host {
 			continue
 		}
 		hs = append(hs, host.New(n.Addr))
+	}
+	for i := 0; i < e.Cfg.BackupHosts; i++ {
+		hs = append(hs, host.NewWithType(fmt.Sprintf("10.1.%d.250:7999", i), host.TypeBackup))
 	}
 	return hs
 }
